@@ -291,15 +291,26 @@ class Engine(ExprMixin, CallMixin):
         from .calls import _store_multi
         return VDict(D.kshape, D.vshape, _store_multi(D.dom, ks, z3.BoolVal(True)), sto(D.vals, ks, self.coerce(v, D.vshape)), None, D.default)
 
+    def spec_frontier(self, node, st):
+        """frontier(): the current allocation frontier (identities >= it belong to objects not created yet)"""
+        return to_z3(st.alloc)
+
+    def spec_setof(self, node, st):
+        """setof(lambda x: P(x)): the set of integers {x | P(x)} (set comprehension at spec level)"""
+        lam = node.args[0]
+        x = z3.Int(uid(lam.args.args[0].arg))
+        st2 = st.copy()
+        st2.env[lam.args.args[0].arg] = x
+        return VSet(("int",), z3.Lambda([x], to_z3(self.truth(self.ev(lam.body, st2)))))
+
+    def spec_card(self, node, st):
+        """card(S): the number of elements of the (finite) set of integers S - what len(S) returns (see CallMixin.set_card_fn)"""
+        return self.set_card_fn(self.ev(node.args[0], st))
+
     def spec_fill(self, node, st):
         """fill(n, v): the list of n copies of the integer v (ghost arrays)"""
         n, v = self.ev(node.args[0], st), self.ev(node.args[1], st)
         return VList(n, z3.K(z3.IntSort(), to_z3(v)), ("int",))
-
-    def spec_upd(self, node, st):
-        """upd(L, i, v): the list L with position i replaced by v (ghost arrays; i is taken as given, no wrap-around)"""
-        L, i, v = (self.ev(a, st) for a in node.args[:3])
-        return VList(L.length, sto(L.elems, [to_z3(i)], self.coerce(v, L.eshape)), L.eshape)
 
     def spec_snoc(self, node, st):
         """snoc(L, x): the list L with x appended (spec-level L + [x] as an array store)"""
@@ -397,19 +408,52 @@ class Engine(ExprMixin, CallMixin):
     def with_touches(self, k, lc, st, run):
         """run the loop body with the loop's declared write frame active (see havoc): every heap write is checked against it"""
         t = lc.get("touches")
-        if not t:
+        al = lc.get("allocates")
+        if not t and al is None:
             return run()
-        frame = {"k": k, "names": {x.split(".")[1] for x in t},
-                 "cells": {x: [to_z3(self.spec_value(e_, st).ident) for e_ in es] for x, es in t.items()}}
         stack = self.__dict__.setdefault("touch_stack", [])
-        stack.append(frame)
+        depth0 = len(stack)
+        if t:
+            stack.append({"k": k, "names": {x.split(".")[1] for x in t},
+                          "cells": {x: [to_z3(self.spec_value(e_, st).ident) for e_ in es] for x, es in t.items()}})
+        if al is not None:
+            # `allocates` frame (see havoc_allocates): the named fields are written only on objects created by the loop
+            stack.append({"k": k, "names": {x.split(".")[1] for x in al}, "keys": set(al), "fresh_from": self._alloc_entry[k]})
         try:
             return run()
         finally:
-            stack.pop()
+            del stack[depth0:]
+
+    def havoc_allocates(self, k, lc, st, entry):
+        """loop contract key `allocates: ["Cls.f", ..]` - the loop body creates objects.  At the loop head the allocation
+        frontier is an unknown not below the frontier at loop entry, and every named field is an unknown array that agrees with
+        its value at loop entry on every object that existed then; the body may write a named field only on objects created
+        by the loop (obligation at every write, heap_write).  `entry` = the state at loop entry."""
+        al = lc.get("allocates")
+        if al is None:
+            return
+        a0 = to_z3(entry.alloc)
+        self.__dict__.setdefault("_alloc_entry", {})[k] = a0
+        a = z3.Int(uid(f"alloc@loop{k}"))
+        st.assume(a >= a0)
+        st.alloc = a
+        r = z3.Int(uid("r"))
+        for key_ in al:
+            cls, f = key_.split(".")
+            old = self.heap_tree(entry, cls, f)
+            new = fresh(self.field_shape(cls, f), uid(f"H.{cls}.{f}@loop{k}"), (I,))
+            st.heap[(cls, f)] = new
+            self.assume_heap_wf(st, cls, f)
+            same = AND(*[z3.Select(x, r) == z3.Select(y, r) for x, y in zip(leaves(new), leaves(old))])
+            st.assume(z3.ForAll([r], z3.Implies(r < a0, same)))
 
     def heap_write(self, st, ref, field, val):
         for fr in self.__dict__.get("touch_stack", []):
+            if field in fr["names"] and "fresh_from" in fr:
+                if f"{ref.cls}.{field}" in fr["keys"]:
+                    self.emit(f"loop{fr['k']}.writes_only_new_objects[{ref.cls}.{field}]", st, to_z3(ref.ident) >= fr["fresh_from"],
+                              None, kind="frame", guard=list(self.guard))
+                continue
             if field in fr["names"]:
                 cells = fr["cells"].get(f"{ref.cls}.{field}")
                 if cells is None:
@@ -777,6 +821,8 @@ class Engine(ExprMixin, CallMixin):
                     return self.default_of(shp)
                 if isinstance(val, (VEmptyDict, VEmptySet)):
                     return self.empty_of(shp, val)
+                if val is None and shp[0] == "opt":
+                    return self.coerce(None, shp)  # `x = None` for a local declared Optional: the None of that Optional shape
                 if shp == ("list", ("char",)) and isinstance(val, VList) and val.elems is not None and val.eshape == ("str",):
                     # a list of one-character strings declared as a list of characters: only when every element is the
                     # same constant character (e.g. ["." for _ in range(n)])
@@ -812,7 +858,23 @@ class Engine(ExprMixin, CallMixin):
     def st_AugAssign(self, s, st):
         load = ast.fix_missing_locations(ast.copy_location(_as_load(s.target), s.target))
         cur = self.ev(load, st)
-        val = self.binop(s.op, cur, self.ev(s.value, st), s)
+        iop = {ast.Add: "__iadd__", ast.Sub: "__isub__", ast.Mult: "__imul__"}.get(type(s.op))
+        if isinstance(cur, VRef) and iop and f"{cur.cls}.{iop}" in self.externals:
+            # `x += y` on an object whose class has the in-place special method (sidecar external, third-party class):
+            # x = x.__iadd__(y).  The model may write the heap; inside a loop the loop contract must name what it writes
+            # (`writes`), which is checked here because the syntactic write analysis cannot see through the call
+            fields_ = getattr(self.externals[f"{cur.cls}.{iop}"], "writes", None)
+            k_ = self.enclosing_loop.get(id(s))
+            while k_ is not None:  # every loop around the statement
+                lc_ = self.cur_loops.get(k_)
+                declared = set(lc_.get("writes", ())) if isinstance(lc_, dict) else set()
+                if fields_ is None or not set(fields_) <= declared:
+                    raise Unsupported(f"{cur.cls}.{iop} is called in loop #{k_}, whose contract does not declare `writes` for {fields_}")
+                k_ = getattr(self, "loop_parent", {}).get(k_)
+            self.used_externals.add(f"{cur.cls}.{iop}")
+            val = self.externals[f"{cur.cls}.{iop}"](self, [cur, self.ev(s.value, st)], {}, s, st)
+        else:
+            val = self.binop(s.op, cur, self.ev(s.value, st), s, st)
         self.assign_to(s.target, val, st, s)
         return self.with_raises(st, [Outcome("fall", st)], s)
 
@@ -1224,6 +1286,7 @@ class Engine(ExprMixin, CallMixin):
         elif idx_name is None:
             idx_name = "__it%d" % k
         names, fields = self.assigned_in(s.body)
+        fields = fields | {x.split(".")[1] for x in lc.get("writes", ())}  # heap fields written through calls (declared)
         if isinstance(s.iter, ast.Name) and s.iter.id in names:
             raise Unsupported("loop modifies the list it iterates over")
         zn = to_z3(n)
@@ -1245,6 +1308,7 @@ class Engine(ExprMixin, CallMixin):
         # arbitrary iteration
         sh = s0.copy()
         self.havoc(sh, names - ({s.target.id} if direct else set()), fields, f"loop{k}", lc.get("touches"))
+        self.havoc_allocates(k, lc, sh, s0)
         self.havoc_ghost(sh, s.body, f"loop{k}")
         kv = z3.Int(uid(f"it{k}"))
         bind_head(sh, kv)
@@ -1325,9 +1389,11 @@ class Engine(ExprMixin, CallMixin):
     def st_While(self, s, st):
         k, lc = self.loop_contract(s)
         names, fields = self.assigned_in(s.body)
+        fields = fields | {x.split(".")[1] for x in lc.get("writes", ())}  # heap fields written through calls (declared)
         self.check_invs(k, lc, st, "init", s)
         sh = st.copy()
         self.havoc(sh, names, fields, f"loop{k}", lc.get("touches"))
+        self.havoc_allocates(k, lc, sh, st)
         self.havoc_ghost(sh, s.body, f"loop{k}")
         self.assume_invs(lc, sh)
         self.guard, self.mayraise = [], []
@@ -1452,6 +1518,15 @@ class Engine(ExprMixin, CallMixin):
         s2.env.update(st.ghost)
         for p, a in zip(lem["params"], args):
             s2.env[p] = a
+        if getattr(self, "cur_name", None) == f"lemma:{name}":
+            # a lemma used inside its own proof: induction.  Sound when the instance is smaller in a well-founded order - the
+            # lemma names an integer measure `decreases` over its parameters; obligation: 0 <= measure(instance) < measure(self)
+            if "decreases" not in lem:
+                raise ContractError(f"lemma {name} is used in its own proof but declares no `decreases` measure")
+            m_inst, m_self = to_z3(self.spec_value(lem["decreases"], s2)), to_z3(self.spec_value(lem["decreases"], st))
+            self.emit(f"lemma[{name}].induction-measure-decreases", st, z3.And(m_inst >= 0, m_inst < m_self), node, kind="lemma-pre")
+        elif str(getattr(self, "cur_name", "")).startswith("lemma:") and self.cur_name[6:] in self._lemma_reach(name):
+            raise ContractError(f"lemma {name} is used in the proof of {self.cur_name[6:]}, which its own proof depends on (circular)")
         for k, r in enumerate(lem.get("requires", [])):
             self.emit(f"lemma[{name}].requires.{k}", st, self.spec_eval(r, s2), node, kind="lemma-pre")
         for e in lem["ensures"]:
@@ -1461,6 +1536,7 @@ class Engine(ExprMixin, CallMixin):
     # ------------------------------------------------------------------ top level
     def number_loops(self, fdef):
         self.loop_ordinal, self.enclosing_loop = {}, {}
+        self.loop_parent = {}  # loop ordinal -> ordinal of the loop directly around it (None at top level)
         ctr = [0]
 
         def walk(stmts, encl):
@@ -1470,6 +1546,7 @@ class Engine(ExprMixin, CallMixin):
                     k = ctr[0]
                     ctr[0] += 1
                     self.loop_ordinal[id(s)] = k
+                    self.loop_parent[k] = encl
                     walk(s.body, k)
                     walk(s.orelse, encl)
                 elif isinstance(s, ast.If):
@@ -1633,6 +1710,18 @@ class Engine(ExprMixin, CallMixin):
         elif isinstance(v, VRec):
             for x in v.fields.values():
                 self.assume_wf(x, st)
+
+    def _lemma_reach(self, name):
+        """the lemmas that the proof of lemma `name` uses, transitively (syntactic: `use L(` in the proof steps)"""
+        import re
+        seen, todo = set(), [name]
+        while todo:
+            for c in self.lemmas.get(todo.pop(), {}).get("steps", []):
+                for used in re.findall(r"\buse\s+(\w+)\s*\(", c):
+                    if used not in seen:
+                        seen.add(used)
+                        todo.append(used)
+        return seen
 
     def verify_lemma(self, name):
         """prove a sidecar lemma (pure spec-level statement) by SMT"""
